@@ -10,7 +10,7 @@ from fractions import Fraction
 
 import numpy as np
 
-from hyverif.core import same_result, scalar_forms
+from hyverif.core import same_result, scalar_forms, size_edges
 
 ID = "C14"
 SHARDS = {"quick": 8, "thorough": 16}
@@ -44,6 +44,10 @@ T0 = 946684800      # 2000-01-01 00:00:00 UTC
 
 def gen_series(rng, it, tier):
     n = int(rng.integers(2, 40)) if it % 4 else int(rng.integers(40, 201))
+    if it % 25 == 13:
+        # record lengths at the neighbours of powers of two / round numbers
+        ed = [v for v in size_edges(255, 5001 if tier == "quick" else 66000)]
+        n = ed[(it // 25) % len(ed)]
     gaps_pool = [0, 1, 7, 60, 600, 1800, 3600, 5000, 9000, 86400, 2 * 86400]
     w = np.array([1, 2, 2, 6, 8, 8, 8, 4, 3, 1, 0.5])
     gaps = rng.choice(gaps_pool, size=n - 1, p=w / w.sum())
